@@ -226,7 +226,8 @@ fn byte_case(stage: u8, code: u32, seed: u64) -> Option<String> {
         let mut blob = std::fs::read(d.join(file)).ok()?;
         let (off, vi) = ((code / 3) as usize, code % 3);
         if off + 8 > blob.len() { return None; }
-        let val: u64 = [1u64 << 40, 1u64 << 60, u64::MAX][vi as usize];
+        // offset 0 is the block-size field of both files: there, values whose LOW 32 bits are a legal block size
+        let val: u64 = if off == 0 { [(1u64 << 32) + 2048, (1u64 << 63) + 512, (1u64 << 32) + 65536][vi as usize] } else { [1u64 << 40, 1u64 << 60, u64::MAX][vi as usize] };
         blob[off..off + 8].copy_from_slice(&val.to_le_bytes());
         std::fs::write(d.join(file), &blob).ok()?;
         let mut c = Command::new(bin()?);
@@ -260,7 +261,11 @@ pub fn search(contract: &str, seed: u64, as_twin: bool) -> i32 {
     }
     // byte-level length corruption: every 5th offset of the first 400 (rotating with the seed), all three values
     if !contract.contains("run_delta") && !contract.contains("run_patch") && !contract.contains("sync_files") || contract == "cli" {
-        for stage in [3u8, 4u8] { let mut off = (seed % 5) as u32; while off < 400 { for vi in 0..3u32 {
+        for stage in [3u8, 4u8] { for vi in 0..3u32 { cases += 1; if let Some(what) = byte_case(stage, vi, seed) {
+                println!("WITNESS {{\"kind\":\"cli\",\"stage\":{stage},\"code\":{vi},\"seed\":{seed},\"what\":\"{}\"}}", what.replace('"', "'").replace('\n', " "));
+                if as_twin { println!("CASES {cases}"); }
+                return 1; } } }
+        for stage in [3u8, 4u8] { let mut off = 1 + (seed % 5) as u32; while off < 400 { for vi in 0..3u32 {
             cases += 1;
             if let Some(what) = byte_case(stage, off * 3 + vi, seed) {
                 println!("WITNESS {{\"kind\":\"cli\",\"stage\":{stage},\"code\":{},\"seed\":{seed},\"what\":\"{}\"}}", off * 3 + vi, what.replace('"', "'").replace('\n', " "));
